@@ -4,7 +4,7 @@ CONSTANTS
   LstHs = {0, 1, 2}
   DynHeights <- QuickHeights
   DynGaps = {0, 1}
-  DynViews = {1, 3}
+  DynViews = {1, 2, 3}
   MaxText = 4
   Widths = {1, 2, 3}
 SPECIFICATION Spec
